@@ -176,8 +176,42 @@ uAnyRw        == E(None, pRoot, NoRE, None, None, FALSE, pY)                 \* 
 C12MethFocus == {uExactAGet, uPrefixGet, uPrefixPostRw, uPlainA, uAnyRw, uHdrA}
 C12MethReqs == {[host |-> h, m |-> m, path |-> pA, hdr |-> Hdr2(a, None), ip |-> ip] :
                    h \in {hH, hHG}, m \in {GET, POST, ET}, a \in {None, v1}, ip \in {ip1, ip9}}
+(* rewrite focus: entries with a rewriteTarget (exact, prefix, regexp with group) next to entries *)
+(* for the rewritten URLs themselves, and requests for both: a request whose path is what the     *)
+(* backend of an earlier request saw (GET /a was rewritten to /x; now GET /x, which the rules      *)
+(* route elsewhere or nowhere).  Whatever a server remembers about a request it has served, it     *)
+(* must remember it under the URL the client asked for.                                            *)
+pXB == <<"/", "x", "/", "b">>
+uRwExactAX  == E(pA, None, NoRE, None, None, FALSE, pX)                                  \* /a -> /x
+uRwPrefixAX == E(None, pA, NoRE, None, None, FALSE, pX)                                  \* prefix /a -> /x...
+uRwReAX     == E(None, None, R(TRUE, pASl, TRUE, TRUE), None, None, FALSE, pXG1)         \* ^/a/ G $ -> /x/$1
+uRwXB       == E(pX, None, NoRE, None, None, FALSE, pB)                                  \* /x -> /b (rewrites in a row)
+uPlainX     == E(pX, None, NoRE, None, None, FALSE, None)                                \* /x
+uPrefixXGet == E(None, pX, NoRE, <<GET>>, None, FALSE, None)                             \* prefix /x, GET only
+C12RwFocus == {uRwExactAX, uRwPrefixAX, uRwReAX, uRwXB, uPlainX, uPrefixXGet, uPlainA}
+C12RwReqs == {[host |-> h, m |-> m, path |-> p, hdr |-> Hdr2(None, None), ip |-> ip] :
+                 h \in {hH, hG}, m \in {GET, POST}, p \in {pA, pAB, pX, pXB, pB}, ip \in {ip1, ip9}}
+C12RwReqsMC == {q \in C12RwReqs : q.host = hH /\ q.ip = ip1}
+C12InitRw(c) == \E s \in {FShell(None, NoFilter), FShell(hH, Block9)}, k \in 0..2 : \E ts \in [1..k -> C12RwFocus] :
+                   c = MkCfg(NoFilter, <<s>>, <<ts>>)
+(* shared-entry focus: one entry reached by different ways - through a rule for host h that has  *)
+(* a filter but no entry for the request, falling through to a rule for every host, and directly  *)
+(* from another host.  Four requests only (two hosts x two clients), so that within a short       *)
+(* behaviour the entry is first resolved for one host, then for the other, then asked for by the  *)
+(* client the rule filter refuses: what is remembered for one key must not leak to another key    *)
+(* that resolves to the same entry.                                                                *)
+C12ShareShells == {FShell(hH, Block9), FShell(None, NoFilter)}
+C12ShareFocus == {uPlainA, uPrefixGet}
+C12ShareReqs == {[host |-> h, m |-> GET, path |-> pA, hdr |-> Hdr2(None, None), ip |-> ip] : h \in {hH, hG}, ip \in {ip1, ip9}}
 (* few requests (one host, one method, two paths, three clients) over sibling entries / rules   *)
 (* with different filters: every (client, path) pair repeats within a short behaviour           *)
 C05FocusReqs == {[host |-> hH, m |-> GET, path |-> p, hdr |-> Hdr2(None, None), ip |-> ip] : p \in {pA, pB}, ip \in {ip1, ip5, ip9}}
 C05FocusShells == {FShell(h, f) : h \in {None, hH}, f \in {NoFilter, Block9, Block5}}
+(* the same requests with every way of conveying the client address (HttpRouter: req.via); model *)
+(* addresses are concretised below a public base address                                          *)
+Vias == {"remote", "xff", "xri", "xffchain", "xrichain"}
+WithVia(S) == {[host |-> q.host, m |-> q.m, path |-> q.path, hdr |-> q.hdr, ip |-> q.ip, via |-> v] : q \in S, v \in Vias}
+C12SimReqsVia == WithVia(C12SimReqs)
+C12ReqsAVia == WithVia(C12ReqsA)
+C05FocusReqsVia == WithVia(C05FocusReqs)
 =============================================================================
